@@ -125,4 +125,16 @@ def cases():
                                             {"name": "b2", "parent": "style", "var_options": {"CFLAGS": {"suffix": ";"}}, "env": {"bindir": "${build-dir}/${builder}/${app}", "CFLAGS": ["own"], "LIBS": ["q", "r"]}}],
                                "apps": [{"name": "app", "sources": ["main.c"]}]}]}
     out.append((f, {}))
+    # 21: a conditional import whose condition is only a PROVIDED name (no module of that name in the build):
+    #     the condition is about module names, so the import is not active
+    for cond_dep in ("?D", "D"):
+        mods = [{"name": "D", "sources": ["D.c"], "env": {"export": {"X": "from-D", "CFLAGS": ["-DD"]}}},
+                {"name": "P", "provides": ["feat"], "sources": ["P.c"]},
+                {"name": "M", "sources": ["M.c"], "depends": [{"feat": [cond_dep]}]}]
+        out.append((base(mods, [{"name": "app", "sources": ["main.c"], "depends": ["M", "P", "D"]}]), {}))
+    # 22: a downloaded module with a custom build step: users wait for the tag file AND the build outputs
+    mods = [{"name": "thirdparty", "download": git, "build": {"cmd": ["make -C ${srcdir} > ${out}"], "out": ["${build-dir}/tp/libtp.a"]}, "is_build_dep": True},
+            {"name": "middle", "sources": ["middle.c"], "depends": ["thirdparty"]},
+            {"name": "genver", "is_build_dep": True, "build": {"cmd": ["ver > ${out}"], "out": ["gen/version.h"]}}]
+    out.append((dlbase(mods, [{"name": "app", "sources": ["main.c"], "depends": ["middle", "genver"]}]), {}))
     return out
